@@ -241,6 +241,13 @@ def run(rep: Report, tier: str) -> None:  # noqa: C901
     from sa.checks.c21 import spelling_grid
     from sa.checks.c19 import period_limits
     spelling_grid(rep, "R06.7", {k.lower(): v for k, v in _sqlx7.load_macros(P).items()}, period_limits(P))
+    # ---- R06.9: the dependency analysis reads the operand / partition / order of an analytic call on every path (shared with C12) ----
+    rep.rule("R06.9", "the dependency handlers of Analytic / Windowing / OrderBy descend into every operand field on every path: an operand expression may read a scalar of "
+                      "another statement, which must be ordered before the analytic call and kept until it ran")
+    from sa.checks.c12 import traversal_on_every_path as _traversal
+    _traversal(P, rep, "R06.9", {"Analytic"})
+    from sa.checks.c12 import handler_field_matrix as _matrix
+    _matrix(P, rep, "R06.9", {"Analytic", "Windowing", "OrderBy"}, floor=1)
     rep.assumptions = ["DuckDB's window functions of the same name implement the VTL analytic operators over the given OVER clause",
                        "grammar alternative <-> constructor method pairing (ANTLR naming)"]
 
